@@ -1,4 +1,4 @@
-CONSTANTS MaxRow = 5 MaxCol = 4 EmitReplay = FALSE EmitWb = FALSE MaxToks = 1 Depth = 3 NCells = 2
+CONSTANTS MaxRow = 5 MaxCol = 4 EmitReplay = FALSE EmitWb = FALSE MaxToks = 1 Depth = 2 NCells = 2
   UsePercent = FALSE UseParens = FALSE
   Operands <- WbOperandsSmall FnNames <- NoFns InfixOps <- NoOps PrefixOps <- NoPre BlankRuns <- NoBlanks
 SPECIFICATION MCSpec
